@@ -110,7 +110,9 @@ def is_logger(stmt):
 
 
 def is_doc(stmt):
-    return isinstance(stmt, ast.Expr) and isinstance(stmt.value, ast.Constant) and isinstance(stmt.value.value, str)
+    """a docstring or `pass`: nothing happens"""
+    return isinstance(stmt, ast.Pass) or \
+        (isinstance(stmt, ast.Expr) and isinstance(stmt.value, ast.Constant) and isinstance(stmt.value.value, str))
 
 
 # ---------------------------------------------------------------------------------------- server ------
@@ -271,6 +273,7 @@ def server_file_manager(repo):
     """each file-manager function as primitive FS operations"""
     p = os.path.join(repo, "frontend/server/services/file_manager.py")
     tree = ast.parse(open(p).read())
+    drop_log_only_locals(tree)
     return _file_manager(tree)
 
 
@@ -361,6 +364,7 @@ def manager_ir(repo):
     """services_manager.create_service / clean_service_when_close_connection as ordered steps"""
     p = os.path.join(repo, "frontend/server/services/services_manager.py")
     tree = ast.parse(open(p).read())
+    drop_log_only_locals(tree)
     WAIT_TEST = "sid in self._service_dict or waiting[0] is not service"
     WAIT_FOR = "await self._access_dict_lock.wait_for(lambda: sid not in self._service_dict and waiting[0] is service)"
 
@@ -396,6 +400,8 @@ def manager_ir(repo):
                 inner = []
                 for b in st.body:
                     t = src(b)
+                    if is_logger(b) or is_doc(b) or isinstance(b, ast.Pass):
+                        continue
                     if isinstance(b, ast.If) and src(b.test) == WAIT_TEST and not b.orelse:
                         bb = [x for x in b.body if not is_logger(x) and not src(x).startswith("reason =")]
                         if len(bb) == 2 and src(bb[0]).startswith("service.send_message(MsgType.CONTROL") and src(bb[1]) == WAIT_FOR:
@@ -639,6 +645,7 @@ class ClientExtractor:
 def emit_client(repo):
     ex = ClientExtractor(repo)
     tree = ast.parse(open(os.path.join(repo, "frontend/client/services/file_manager.py")).read())
+    drop_log_only_locals(tree)
     fm = _file_manager(tree)
 
     def lst(ops, indent="    "):
